@@ -53,6 +53,9 @@ type wParams struct {
 
 	DstRoot string `json:"dstroot,omitempty"` // use (and keep) this destination directory instead of a fresh one
 
+	Kind string    `json:"kind,omitempty"` // "", "refuse", "badpath" (see applyKind)
+	Then []wParams `json:"then,omitempty"` // follow-up transfers through the same world (only Dir, Tree, Directory, Overwrite, Kind, Local, Stop are used)
+
 	Tree   string `json:"tree"`             // source tree recipe
 	DstPre string `json:"dstpre,omitempty"` // destination pre-population recipe
 	Seg    string `json:"seg,omitempty"`    // "", "byte", "coalesce", "cut:<c2s|s2c>:<offset>"
@@ -475,6 +478,10 @@ type world struct {
 	uploadRes   <-chan error
 	uploadErr   string
 	probeN      int
+	srvGen      int
+	srvExited   bool
+	markS2C0 int
+	markC2S, markS2C, markTerm int // where the current transfer's bytes begin in the logs
 	stopAt      time.Duration
 	stopHit     bool
 	stopTransfer *trzszTransfer
@@ -522,6 +529,9 @@ type worldResult struct {
 	CliDoneAt    time.Duration
 	End          time.Duration
 	Transferring bool // filter still thinks a transfer is in progress at the end
+	Params       wParams
+	MarkC2S, MarkS2C0 int // where this transfer's bytes begin on the wire next to the client
+	Next         []*worldResult // follow-up transfers
 	ProbeOut     string // "ok", or what went wrong with the transparency probe after the transfer
 	TunLogS2C    []vs.Stamp
 	Quiet        bool // the world went quiescent (false: something was still running when the observation was taken)
@@ -812,7 +822,12 @@ func (w *world) serverVersion() string {
 // in its own goroutine without a recover, exactly as the product does.
 func (w *world) startServer() {
 	n := len(w.c2s) - 1
-	srvIn, srvOut := w.c2s[n], w.s2c[n]
+	srvOut := w.s2c[n]
+	gen := w.srvGen + 1
+	w.srvGen = gen
+	// the server process's stdin: gone once that process has exited
+	srvIn := &vs.GatedReader{P: w.c2s[n], Closed: func() bool { return w.srvGen != gen || w.srvExited }}
+	w.srvExited = false
 	uniqueID := (vs.Now().UnixMilli() % 10e10) * 100
 	if w.p.WinNL == "server" {
 		uniqueID += 10 // as TrzMain does when running on Windows
@@ -848,6 +863,7 @@ func (w *world) startServer() {
 			transfer.cleanup()
 			w.srvErr, w.srvDone, w.srvDoneAt = err, true, vs.Elapsed()
 			w.srvDoneStep = vs.StepNow()
+			w.srvExited = true
 		})
 		return
 	}
@@ -881,6 +897,7 @@ func (w *world) startServer() {
 		transfer.cleanup()
 		w.srvErr, w.srvDone, w.srvDoneAt = err, true, vs.Elapsed()
 		w.srvDoneStep = vs.StepNow()
+		w.srvExited = true
 	})
 }
 
@@ -918,7 +935,14 @@ func (w *world) prepareClient() {
 		return
 	}
 	if w.p.Dir == "down" {
-		w.filter.SetDefaultDownloadPath(w.dstRoot)
+		switch w.p.Kind {
+		case "refuse":
+			w.filter.SetDefaultDownloadPath("")
+		case "badpath":
+			w.filter.SetDefaultDownloadPath(filepath.Join(w.root, "no-such-dir"))
+		default:
+			w.filter.SetDefaultDownloadPath(w.dstRoot)
+		}
 		return
 	}
 	var paths []string
@@ -995,11 +1019,11 @@ func (w *world) result(s *vs.Sched) *worldResult {
 	}
 	n := len(w.c2s) - 1
 	r.C2S, r.S2C = w.c2s[n].Written, w.s2c[n].Written
-	r.ClientGot = w.s2c[0].Written
+	r.ClientGot = w.s2c[0].Written[w.markS2C0:]
 	b, _ := os.ReadFile(w.stdout.Name())
 	r.SrvStdout = string(b)
-	r.Term = string(w.term.Written)
-	cliStreams, srvStreams := [][]byte{w.c2s[0].Written}, [][]byte{w.s2c[n].Written}
+	r.Term = string(w.term.Written[w.markTerm:])
+	cliStreams, srvStreams := [][]byte{w.c2s[0].Written[w.markC2S:]}, [][]byte{w.s2c[n].Written[w.markS2C:]}
 	for _, c := range vs.NetConns() {
 		if c.Name == "client.client" {
 			cliStreams = append(cliStreams, c.Sent())
@@ -1039,6 +1063,97 @@ func (w *world) result(s *vs.Sched) *worldResult {
 	r.DstFull = snapshotFull(w.dstRoot)
 	r.Outside = outsideSnapshot(w.root)
 	return r
+}
+
+// runTransfer runs one transfer through the (already built) world and reports what was observed.
+func (w *world) runTransfer(extra func(w *world)) *worldResult {
+	p := w.p
+	var res *worldResult
+	w.applyKind()
+	w.prepareClient()
+	if extra != nil {
+		extra(w)
+	}
+	w.startServer()
+	w.installEvents()
+	if w.filter != nil {
+		vs.GoDaemon("monitor", func() {
+			vs.WaitUntil("monitor.start", func() bool { return w.filter.IsTransferringFiles() || w.srvDone })
+			w.cliStartAt = vs.Elapsed()
+			vs.WaitUntil("monitor.end", func() bool { return !w.filter.IsTransferringFiles() })
+			w.cliDoneAt, w.cliDone = vs.Elapsed(), true
+			w.cliDoneStep = vs.StepNow()
+		})
+	}
+	res0Quiet := vs.WaitSettled(func() bool {
+		if w.filter == nil {
+			return w.srvDone && w.rawDone
+		}
+		return w.srvDone && w.srvStarted && !w.filter.IsTransferringFiles()
+	}, 3000)
+	probe := ""
+	if p.Probe && w.filter != nil {
+		probe = w.probe()
+	}
+	vs.Peek(func() {
+		res = w.result(nil)
+		res.Transferring = w.filter != nil && w.filter.IsTransferringFiles()
+		res.ProbeOut = probe
+	})
+	res.End = vs.Elapsed()
+	res.Alive = vs.AliveNow()
+	res.Quiet = res0Quiet
+	res.Params = p
+	res.MarkC2S, res.MarkS2C0 = w.markC2S, w.markS2C0
+	return res
+}
+
+// applyKind arranges the client side for the kind of transfer asked for.
+func (w *world) applyKind() {
+	switch w.p.Kind {
+	case "refuse": // the user cancels the save dialog (fake zenity exits 1): the client answers confirm:false
+		w.p.Dir = "down"
+	case "badpath": // the chosen download directory does not exist: fails on the client before the handshake
+		w.p.Dir = "down"
+	}
+}
+
+// nextTransfer prepares the world for a follow-up transfer through the same filter, wires and relays.
+func (w *world) nextTransfer(st wParams, k int) {
+	base := w.p
+	base.Dir, base.Tree, base.Directory, base.Overwrite, base.Kind = st.Dir, st.Tree, st.Directory, st.Overwrite, st.Kind
+	base.Local, base.Stop, base.Pauses, base.DstPre, base.Then = st.Local, st.Stop, nil, "", nil
+	if base.Stop != nil {
+		cp := *base.Stop
+		cp.Step += vs.StepNow() // relative to the beginning of this transfer
+		base.Stop = &cp
+	}
+	w.p = base
+	w.dstRoot = filepath.Join(w.root, fmt.Sprintf("dst%d", k))
+	must(os.MkdirAll(w.dstRoot, 0o755))
+	w.srcRoot, w.entries, w.tops = sharedTree(base.Tree)
+	w.pre = snapshotFull(w.dstRoot)
+	w.srvTransfer, w.srvStarted, w.srvDone, w.srvErr, w.srvDoneAt = nil, false, false, nil, 0
+	w.cliDone, w.cliDoneAt, w.cliStartAt, w.srvDoneStep, w.cliDoneStep = false, 0, 0, 0, 0
+	w.stopHit, w.stopAt, w.stopTransfer, w.pauseLog = false, 0, nil, nil
+	w.markC2S, w.markS2C, w.markTerm = len(w.c2s[0].Written), len(w.s2c[len(w.s2c)-1].Written), len(w.term.Written)
+	w.markS2C0 = len(w.s2c[0].Written)
+	worldStdoutFile.Truncate(0)
+	worldStdoutFile.Seek(0, 0)
+	vs.HookFn = nil
+	if lf := base.Local; lf != nil {
+		n := 0
+		vs.HookFn = func(name string, args ...any) error {
+			if name != lf.Hook || (lf.Side == "client") != vs.Flag("client") {
+				return nil
+			}
+			n++
+			if n != lf.K {
+				return nil
+			}
+			return fmt.Errorf("injected %s failure", name)
+		}
+	}
 }
 
 // installEvents registers the user events of this execution with the scheduler.
@@ -1203,39 +1318,11 @@ func runWorldWith(p wParams, cfg vs.Config, prefix, prefixN []int, extra func(w 
 	}
 	s := vs.Run(cfg, prefix, prefixN, func() {
 		w = buildWorld(p)
-		w.prepareClient()
-		if extra != nil {
-			extra(w)
+		res = w.runTransfer(extra)
+		for i := range p.Then {
+			w.nextTransfer(p.Then[i], i+1)
+			res.Next = append(res.Next, w.runTransfer(nil))
 		}
-		w.startServer()
-		w.installEvents()
-		if w.filter != nil {
-			vs.GoDaemon("monitor", func() {
-				vs.WaitUntil("monitor.start", func() bool { return w.filter.IsTransferringFiles() || w.srvDone })
-				w.cliStartAt = vs.Elapsed()
-				vs.WaitUntil("monitor.end", func() bool { return !w.filter.IsTransferringFiles() })
-				w.cliDoneAt, w.cliDone = vs.Elapsed(), true
-				w.cliDoneStep = vs.StepNow()
-			})
-		}
-		res0Quiet := vs.WaitSettled(func() bool {
-			if w.filter == nil {
-				return w.srvDone && w.rawDone
-			}
-			return w.srvDone && w.srvStarted && !w.filter.IsTransferringFiles()
-		}, 3000)
-		probe := ""
-		if p.Probe && w.filter != nil {
-			probe = w.probe()
-		}
-		vs.Peek(func() {
-			res = w.result(nil)
-			res.Transferring = w.filter != nil && w.filter.IsTransferringFiles()
-			res.ProbeOut = probe
-		})
-		res.End = vs.Elapsed()
-		res.Alive = vs.AliveNow()
-		res.Quiet = res0Quiet
 	})
 	if w == nil || (res == nil && w.keys == nil) {
 		panic("harness: building the world failed: " + s.CrashString() + " " + s.Diverged)
